@@ -169,14 +169,20 @@ def child_main(jobs_path, out_path):
             os.chdir(home)
             # the message files, wherever they are
             found = {}
-            for p in glob.glob(os.path.join(root, "**", "*.jsonld"), recursive=True):
+            files_seen = []
+            for p in sorted(glob.glob(os.path.join(root, "**", "*.jsonld"), recursive=True)):
                 with open(p) as f:
                     txt = f.read()
                 try:
-                    key = _msg_key(json.loads(txt))
+                    m = json.loads(txt)
+                    m.pop("@context", None)
+                    key = _msg_key(m)
                 except Exception:
+                    m = None
                     key = "unparsable:" + txt[:100]
                 found.setdefault(key, []).append(os.path.dirname(p))
+                files_seen.append({"dir": os.path.dirname(p), "msg": m})
+            obs["files"] = files_seen
             log = []
             if os.path.exists(rec):
                 with open(rec) as f:
@@ -229,12 +235,14 @@ CWD0 = 4999          # the caller's working directory (never a legitimate place 
 UNKNOWN = 4998       # a directory the harness cannot attribute to a job
 IMPORTS = ["Model.Audit", "Spec.Audit"]
 EXTRA = """
-Definition case_t := (cfg * list task * list lmsg * list res)%%type.
+Definition case_t := (cfg * list task * list lmsg * list res * list lmsg)%%type.
+(* the messages in the order they were sent, and the saved results, are what the model predicts *)
 Definition tie_ok (k : case_t) : bool :=
-  let '(c, ts, log, rs) := k in
+  let '(c, ts, log, rs, flog) := k in
   let '(m, r) := session c %d ts in list_eqb lmsg_eqb m log && permb nb_eqb r rs.
+(* the message files satisfy the specification (which does not depend on their order) *)
 Definition spec_ok (k : case_t) : bool :=
-  let '(c, ts, log, rs) := k in if c_prov c then audit_okb (c_md c) log rs else true.
+  let '(c, ts, log, rs, flog) := k in if c_prov c then audit_okb (c_md c) flog rs else true.
 """ % CWD0
 
 
@@ -342,13 +350,40 @@ def split_ks(nd, top, out):
 
 
 # ---- canonical form of what was observed ------------------------------------------------------------------
-class Unclassified(Exception):
-    pass
+def classify(m, u):
+    """one JSON-LD message -> (constructor, args) of Model.Audit.msg, or None"""
+    if not isinstance(m, dict):
+        return None
+    ty = m.get("@type")
+    try:
+        if ty == "job" and "startedAtTime" in m:
+            return ("MStart", [u(m["@id"]), u(m["executedBy"])])
+        if ty == "job" and "StartedAtTime" in m:
+            return ("MTask", [u(m["@id"]), str(m["Label"]), m["Command"] is not None])
+        if ty == "input":
+            return ("MInput", [u(m["@id"]), str(m["Label"])])
+        if ty == "monitor":
+            return ("MMonStart", [u(m["@id"]), u(m["wasStartedBy"])])
+        if "wasEndedBy" in m:
+            return ("MMonEnd", [u(m["@id"]), u(m["wasEndedBy"])])
+        if ty == "runtime":
+            return ("MRuntime", [u(m["@id"]), u(m["prov:wasGeneratedBy"])])
+        if ty == "prov:Generation":
+            return ("MGen", [u(m["entity_generated"]), u(m["hadActivity"])])
+        if "endedAtTime" in m and isinstance(m.get("errored"), bool):
+            return ("MEnd", [u(m["@id"]), m["errored"]])
+    except (KeyError, ValueError):
+        return None
+    return None
 
 
 def canon(case, obs):
-    """-> (log as [(loc, ctor, args)], results as [(loc, errored)]) with uuids numbered by first appearance and
-    directories named by the job that owns them"""
+    """-> (log, flog, results, problems)
+    log     : the messages in the order they were sent (second messenger), each placed where its file was found
+    flog    : the message files themselves (the observable of the property), in file-name order
+    results : (directory, errored) of every _result.pklz under the cache_root
+    uuids are numbered by first appearance in the sent order, directories are named by the job that owns them;
+    problems: reasons why `log` cannot be compared with the model (each is a correspondence failure)"""
     sk = {}
     top_split_k = None
     for t in case["trees"]:
@@ -365,16 +400,14 @@ def canon(case, obs):
         else:
             dirnum[d] = k
     ids = {}
+    problems = []
 
     def u(v):
         if not isinstance(v, str) or not v.startswith("uid:"):
-            raise Unclassified("not a uid: %r" % (v,))
+            raise ValueError(v)
         return ids.setdefault(v, len(ids) + 1)
 
-    def where(e):
-        if len(e["dirs"]) != 1:
-            raise Unclassified("a sent message is in %d files" % len(e["dirs"]))
-        d = e["dirs"][0]
+    def where(d):
         if os.path.normpath(d) == os.path.normpath(obs["md"]):
             return 0
         if os.path.basename(d) == "messages":
@@ -383,34 +416,27 @@ def canon(case, obs):
 
     log = []
     for e in obs["log"]:
-        m = e["msg"]
-        ty = m.get("@type")
-        if ty == "job" and "startedAtTime" in m:
-            t = ("MStart", [u(m["@id"]), u(m["executedBy"])])
-        elif ty == "job" and "StartedAtTime" in m:
-            t = ("MTask", [u(m["@id"]), m["Label"], m["Command"] is not None])
-        elif ty == "input":
-            t = ("MInput", [u(m["@id"]), m["Label"]])
-        elif ty == "monitor":
-            t = ("MMonStart", [u(m["@id"]), u(m["wasStartedBy"])])
-        elif "wasEndedBy" in m:
-            t = ("MMonEnd", [u(m["@id"]), u(m["wasEndedBy"])])
-        elif ty == "runtime":
-            t = ("MRuntime", [u(m["@id"]), u(m["prov:wasGeneratedBy"])])
-        elif ty == "prov:Generation":
-            t = ("MGen", [u(m["entity_generated"]), u(m["hadActivity"])])
-        elif "endedAtTime" in m and "errored" in m and isinstance(m["errored"], bool):
-            t = ("MEnd", [u(m["@id"]), m["errored"]])
-        else:
-            raise Unclassified("unknown message %r" % (sorted(m),))
-        log.append((where(e), t[0], t[1]))
-    if obs["n_files"] != len(log):
-        raise Unclassified("%d message files for %d messages sent" % (obs["n_files"], len(log)))
+        t = classify(e["msg"], u)
+        if t is None:
+            problems.append("sent message outside the model's vocabulary: keys %r" % (sorted(e["msg"]),))
+            continue
+        if len(e["dirs"]) != 1:
+            problems.append("a sent %s message is in %d files" % (t[0], len(e["dirs"])))
+        log.append((where(e["dirs"][0]) if e["dirs"] else UNKNOWN, t[0], t[1]))
+    flog = []
+    for f in obs["files"]:
+        t = classify(f["msg"], u)
+        if t is None:
+            problems.append("a message file is unreadable or outside the model's vocabulary")
+            continue
+        flog.append((where(f["dir"]), t[0], t[1]))
+    if len(obs["files"]) != len(obs["log"]):
+        problems.append("%d message files for %d messages sent" % (len(obs["files"]), len(obs["log"])))
     results = [(dirnum.get(r["dir"], UNKNOWN), r["errored"]) for r in obs["results"]]
-    return log, results
+    return log, flog, results, problems
 
 
-def enc_case(case, obs, log, results):
+def enc_case(case, obs, log, results, flog):
     from .lib import coqio
 
     def arg(a):
@@ -424,9 +450,11 @@ def enc_case(case, obs, log, results):
                     "(Some 0%nat)" if case["md"] else "None", coqio.boolean(obs["sharing"]),
                     coqio.boolean(case["worker"] == "cf"))
     trees = coqio.lst([t for nd in case["trees"] for t in model_nodes(nd, True)])
-    clog = coqio.lst([coqio.pair(coqio.nat(loc), coqio.app(c, *[arg(a) for a in args])) for loc, c, args in log])
+    def enc_log(l):
+        return coqio.lst([coqio.pair(coqio.nat(loc), coqio.app(c, *[arg(a) for a in args])) for loc, c, args in l])
+
     cres = coqio.lst([coqio.pair(coqio.nat(loc), coqio.boolean(e)) for loc, e in results])
-    return coqio.pair(cfg, trees, clog, cres), cfg, trees
+    return coqio.pair(cfg, trees, enc_log(log), cres, enc_log(flog)), cfg, trees
 
 
 def run_children(cases, scratch_root, timeout):
@@ -479,7 +507,7 @@ def run(ctx):
         c["id"] = i
     tmp = tempfile.mkdtemp(prefix="c36-", dir="/tmp")
     try:
-        obs = run_children(cases, tmp, timeout=ctx.budget(400, 900) if ctx.widen == 1 else 3000)
+        obs = run_children(cases, tmp, timeout=ctx.budget(240, 600) if ctx.widen == 1 else 1500)
     finally:
         shutil.rmtree(tmp, ignore_errors=True)
     out = Outcome(rule=RULE)
@@ -502,19 +530,18 @@ def run(ctx):
                                         expected="the run completes and the message files can be read",
                                         note="audited run did not complete", kind="spec" if "incomplete" in o else "tie"))
             continue
-        try:
-            log, results = canon(c, o)
-        except Unclassified as e:
-            out.failures.append(Failure(case=pub, observed=str(e), expected="messages of the eight modelled kinds, one file each",
-                                        note="observed messages outside the model's vocabulary", kind="tie"))
-            continue
-        dist["messages_observed"] += len(log)
+        log, flog, results, problems = canon(c, o)
+        if problems:
+            out.failures.append(Failure(case=pub, observed=sorted(set(problems)),
+                                        expected="every sent message is one of the eight modelled kinds and lies in exactly one file",
+                                        note="message files do not match the messages sent", kind="tie"))
+        dist["messages_observed"] += len(flog)
         dist["results_observed"] += len(results)
         dist["audit_shared_between_jobs"] += bool(o["sharing"])
-        term, cfg, trees = enc_case(c, o, log, results)
+        term, cfg, trees = enc_case(c, o, log, results, flog)
         enc.append(term)
-        meta.append({"case": pub, "cfg": cfg, "trees": trees, "log": log, "results": results, "sharing": o["sharing"],
-                     "exception": o.get("exception")})
+        meta.append({"case": pub, "cfg": cfg, "trees": trees, "log": log, "flog": flog, "results": results,
+                     "sharing": o["sharing"], "exception": o.get("exception")})
         key = (c["worker"], c["flags"], c["md"], tuple(shape(t) for t in c["trees"]))
         if key not in seen:
             seen.add(key)
@@ -532,7 +559,8 @@ def run(ctx):
             vals = coqio.eval_terms(ctx.scratch, "x%s%d" % (kind, i), IMPORTS,
                                     ["session %s %d %s" % (m["cfg"], CWD0, m["trees"])])
             out.failures.append(Failure(
-                case=m["case"], observed={"log": m["log"], "results": m["results"], "audit_shared": m["sharing"]},
+                case=m["case"], observed={"message_files": m["flog"], "sent_in_order": m["log"], "results": m["results"],
+                                          "audit_shared": m["sharing"]},
                 expected=("one start and one end per activity id, ends one-to-one with the saved results (place, errored)"
                           if kind == "spec" else {"model (log, results)": vals[0]}),
                 note="provenance records incomplete or inconsistent" if kind == "spec" else "model/impl",
@@ -552,12 +580,14 @@ def replay(ctx, payload):
     if "incomplete" in o or "harness_error" in o:
         print("implementation: run did not complete:", o.get("incomplete") or o.get("harness_error"))
         return 1
-    log, results = canon(case, o)
-    print("implementation: audit shared between jobs =", o["sharing"])
+    log, flog, results, problems = canon(case, o)
+    print("implementation: audit shared between jobs =", o["sharing"], "| problems:", problems)
+    print("  messages in the order sent:")
     for e in log:
         print("   ", e)
-    print("   results:", results)
-    term, cfg, trees = enc_case(case, o, log, results)
+    print("  message files:", sorted(flog))
+    print("  results:", results)
+    term, cfg, trees = enc_case(case, o, log, results, flog)
     vals = coqio.eval_terms(ctx.scratch, "replay", IMPORTS,
                             ["session %s %d %s" % (cfg, CWD0, trees), "tie_ok %s" % term, "spec_ok %s" % term], extra=EXTRA)
     print("model (log, results):", vals[0])
